@@ -56,8 +56,13 @@ RULES = {
     "(`super().__delitem__(<K>)`, `super().__setitem__(<K>, …)`, `super().pop(<K>)`) - the parameter as given, not an index computed from it: "
     "`slice(i, i + 1)` is not `i` (for i = -1 it is empty), so the last value leaves the list without being released and keeps its role "
     "flag, its graph link and its reference count",
+    "R13": "a use is registered under the position the value has among the node's inputs: in the methods of Node, the index handed to "
+    "`_add_usage` / `_remove_usage` is a parameter of the method (the position that is replaced) or the counter of `enumerate(<the inputs>)` "
+    "over the inputs as they are - not over a filtered or re-packed sequence (`enumerate(filter(None, inputs))`, a comprehension with a "
+    "condition, a slice): with an omitted input in front, every later value would list a use at a position where the node holds another "
+    "value (or none), and replace_input_with / replace_all_uses_with then address the wrong slot",
 }
-FLOORS = {"R1": 30, "R1b": 4, "R2": 70, "R3": 10, "R4": 4, "R5": 8, "R6": 40, "R7": 12, "R8": 1, "R9": 40, "R10": 1, "R11": 3, "R12": 3}
+FLOORS = {"R1": 30, "R1b": 4, "R2": 70, "R3": 10, "R4": 4, "R5": 8, "R6": 40, "R7": 12, "R8": 1, "R9": 40, "R10": 1, "R11": 3, "R12": 3, "R13": 3}
 EXPLANATION = (
     "Enumerates every method of collections.UserList/UserDict (parsed from the interpreter's own "
     "source) that writes self.data and checks how GraphInputs/GraphOutputs/GraphInitializers resolve "
@@ -1237,6 +1242,40 @@ def rule_r10(ctx):
     ctx.require(any(isinstance(x, ast.Attribute) and x.attr == "_graph" for x in ast.walk(g.node)), "Value.graph does not read the ownership link `_graph`")
 
 
+def rule_r13(ctx, rule="R13"):
+    node_cls = ctx.repo.cls(_N)
+    n = 0
+    for f in list(node_cls.methods.values()) + [p[k] for p in node_cls.props.values() for k in p]:
+        if isinstance(f.node, ast.Lambda):
+            continue
+        for c in calls_in(f):
+            if not (isinstance(c.func, ast.Attribute) and c.func.attr in ("_add_usage", "_remove_usage") and len(c.args) >= 2):
+                continue
+            n += 1
+            idx = c.args[1]
+            ok, why = False, f"`{norm(idx)}` is neither a parameter nor an enumerate counter"
+            if isinstance(idx, ast.Name):
+                if idx.id in f.params:
+                    ok = True
+                else:
+                    # counter of an enclosing `for i, v in enumerate(<inputs>)`
+                    p_ = getattr(c, "_parent", None)
+                    while p_ is not None and p_ is not f.node:
+                        if isinstance(p_, ast.For) and isinstance(p_.target, ast.Tuple) and p_.target.elts and isinstance(p_.target.elts[0], ast.Name) \
+                                and p_.target.elts[0].id == idx.id and isinstance(p_.iter, ast.Call) and dotted_of(p_.iter.func) == "enumerate" and p_.iter.args:
+                            src = p_.iter.args[0]
+                            plain = isinstance(src, (ast.Name, ast.Attribute)) and len(p_.iter.args) == 1 and not p_.iter.keywords
+                            ok = plain
+                            why = f"the counter runs over `{norm(src)[:50]}`, not over the inputs as they are"
+                        p_ = getattr(p_, "_parent", None)
+            ctx.check(rule, f"{f.local}: `{norm(c)[:50]}` uses the value's position among the inputs", ok, f, c,
+                      f"`{norm(c)[:60]}`: {why} - for a node with an omitted input (`Clip(x, '', hi)`) the use of every later input is registered one position too low: "
+                      "`hi.uses()` says (clip, 1) while `clip.inputs[1]` is None and `clip.inputs[2]` is hi, so use-def links disagree and later edits address the wrong slot",
+                      how="second argument of _add_usage / _remove_usage in Node: a parameter, or the counter of enumerate over a plain name / attribute",
+                      construct="use registered at a filtered position")
+    ctx.require(n >= 3, f"only {n} use registrations found in Node")
+
+
 def rule_r12(ctx):
     repo = ctx.repo
     n = 0
@@ -1331,6 +1370,7 @@ def rule_r11(ctx):
 def run(ctx):
     from ..shared import rule_s17
 
+    rule_r13(ctx)
     rule_r12(ctx)
     rule_r11(ctx)
     rule_r10(ctx)
